@@ -1577,25 +1577,43 @@ func (s *lvalByFun) Less(i, j int) bool {
 	if s.err != nil {
 		return false
 	}
-	a, b := s.cells[i], s.cells[j]
-	// Functions are always copied when being invoked. But the arguments
-	// are not copied in general.
-	var expr *LVal
-	if s.keyfun == nil {
-		expr = SExpr([]*LVal{s.fun, a.Copy(), b.Copy()})
-	} else {
-		expr = SExpr([]*LVal{
-			s.fun,
-			SExpr([]*LVal{s.keyfun, a.Copy()}),
-			SExpr([]*LVal{s.keyfun, b.Copy()}),
-		})
+	// The function is handed copies: it may not change the elements being
+	// sorted through its arguments.
+	a, b := s.cells[i].Copy(), s.cells[j].Copy()
+	if s.keyfun != nil {
+		a = s.env.applyToValues(s.keyfun, a)
+		if a.Type == LError {
+			s.err = a
+			return false
+		}
+		b = s.env.applyToValues(s.keyfun, b)
+		if b.Type == LError {
+			s.err = b
+			return false
+		}
 	}
-	ok := s.env.Eval(expr)
+	ok := s.env.applyToValues(s.fun, a, b)
 	if ok.Type == LError {
 		s.err = ok
 		return false
 	}
 	return True(ok)
+}
+
+// applyToValues applies fun to values that have already been computed.  A
+// regular function is called on them directly: building the form (fun v...)
+// and evaluating it would evaluate each value a second time, as code -- an
+// element of a quoted list that is itself a list would be run as a call, a
+// symbol looked up as a variable.  Macros and special operators take their
+// arguments as written, so for those the form is still built and evaluated.
+func (env *LEnv) applyToValues(fun *LVal, vals ...*LVal) *LVal {
+	if fun.Type == LFun && !fun.IsSpecialFun() {
+		return env.FunCall(fun, QExpr(vals))
+	}
+	cells := make([]*LVal, 0, 1+len(vals))
+	cells = append(cells, fun)
+	cells = append(cells, vals...)
+	return env.Eval(SExpr(cells))
 }
 
 func builtinInsertIndex(env *LEnv, args *LVal) *LVal {
@@ -1659,23 +1677,20 @@ func builtinInsertSorted(env *LEnv, args *LVal) *LVal {
 	sortErr := Nil()
 	inCells := seqCells(list)
 	i := sort.Search(len(inCells), func(i int) bool {
-		var expr *LVal
-		if keyFun == nil {
-			expr = SExpr([]*LVal{p, item.Copy(), inCells[i].Copy()})
-		} else {
-			expr = SExpr([]*LVal{
-				p,
-				SExpr([]*LVal{
-					keyFun,
-					item.Copy(),
-				}),
-				SExpr([]*LVal{
-					keyFun,
-					inCells[i].Copy(),
-				}),
-			})
+		a, b := item.Copy(), inCells[i].Copy()
+		if keyFun != nil {
+			a = env.applyToValues(keyFun, a)
+			if a.Type == LError {
+				sortErr = a
+				return false
+			}
+			b = env.applyToValues(keyFun, b)
+			if b.Type == LError {
+				sortErr = b
+				return false
+			}
 		}
-		ok := env.Eval(expr)
+		ok := env.applyToValues(p, a, b)
 		if ok.Type == LError {
 			sortErr = ok
 			return false
@@ -2496,8 +2511,7 @@ func builtinAllP(env *LEnv, args *LVal) *LVal {
 		return env.Errorf("second argument is not a proper sequence: %v", list.Type)
 	}
 	for _, v := range seqCells(list) {
-		expr := SExpr([]*LVal{pred, v})
-		ok := env.Eval(expr)
+		ok := env.applyToValues(pred, v)
 		if ok.Type == LError {
 			return ok
 		}
@@ -2521,8 +2535,7 @@ func builtinAnyP(env *LEnv, args *LVal) *LVal {
 		return env.Errorf("second argument is not a list: %v", list.Type)
 	}
 	for _, v := range seqCells(list) {
-		expr := SExpr([]*LVal{pred, v})
-		ok := env.Eval(expr)
+		ok := env.applyToValues(pred, v)
 		if ok.Type == LError {
 			return ok
 		}
